@@ -130,46 +130,63 @@ Definition derive_code (src : pids) (order : list nat) (strict : list nat) (loos
   end.
 
 Record derive_case := {
-  dc_src : pids;
+  dc_src : pids;               (* the source ids as the caller wrote them (dict cell or file cell) *)
   dc_order : list nat;
   dc_strict : list nat;
-  dc_loose : list (list nat)
+  dc_loose : list (list nat);
+  dc_loaded_ok : bool          (* harness: every source cell, as loaded, is that list of integers *)
 }.
 
 Definition derive_case_code (c : derive_case) : nat :=
-  derive_code (dc_src c) (dc_order c) (dc_strict c) (dc_loose c).
+  derive_code (dc_src c) (dc_order c) (dc_strict c) (dc_loose c) + bit 7 (dc_loaded_ok c).
 
 (* ------------------------------------------------------------------ *)
-(* partial_cluster: model vs implementation + checkers *)
+(* partial_cluster: model vs implementation + checkers.  A case is a history of
+   calls on ONE Partial object (every call writes its own column); every call is
+   compared with the model for that call's own parameters. *)
 
-Record partial_case := {
-  pc_cfg : config;
-  pc_wl : list concept;
-  pc_table : table;            (* the aligner calls that were made, with their results *)
-  pc_cmp : nat;                (* 0: ids not compared (float tie), 1: as partitions, 2: exactly *)
-  pc_status : nat;             (* implementation: 0 returned, 1 raised ZeroDivisionError, 2 AttributeError *)
-  pc_out : pids;               (* implementation: the partial-id column *)
-  pc_order : list nat;
-  pc_strict : list nat;        (* implementation: add_cognate_ids(..., 'strict') from pc_out *)
-  pc_loose : list (list nat)   (* implementation: add_cognate_ids(..., 'loose') from pc_out *)
+Record call := {
+  k_cfg : config;
+  k_cmp : nat;                 (* 0: ids not compared (float tie), 1: as partitions, 2: exactly *)
+  k_status : nat;              (* implementation: 0 returned, 1 raised ZeroDivisionError, 2 AttributeError *)
+  k_out : pids                 (* implementation: the partial-id column written by this call *)
 }.
 
-Definition partial_case_code (c : partial_case) : nat :=
-  let model := partial_cluster (table_dist (pc_table c)) (pc_cfg c) (pc_wl c) in
-  match pc_status c with
+Definition call_code (wl : list concept) (t : table) (c : call) : nat :=
+  let model := partial_cluster (table_dist t) (k_cfg c) wl in
+  match k_status c with
   | 0 =>
       bit 0 (match model with
-             | Ok mo => match pc_cmp c with
-                        | 0 => shape_eqb mo (pc_out c)
-                        | 1 => same_partitionb mo (pc_out c)
-                        | _ => pids_eqb mo (pc_out c)
+             | Ok mo => match k_cmp c with
+                        | 0 => shape_eqb mo (k_out c)
+                        | 1 => same_partitionb mo (k_out c)
+                        | _ => pids_eqb mo (k_out c)
                         end
              | _ => false
              end)
-      + bit 1 (one_idb (pc_wl c) (pc_out c))
-      + bit 2 (concept_disjointb (pc_out c))
-      + bit 3 (negb (c_post (pc_cfg c)) || unique_in_wordb (pc_out c))
-      + derive_code (pc_out c) (pc_order c) (pc_strict c) (pc_loose c)
+      + bit 1 (one_idb wl (k_out c))
+      + bit 2 (concept_disjointb (k_out c))
+      + bit 3 (negb (c_post (k_cfg c)) || unique_in_wordb (k_out c))
   | st =>
       bit 0 (match model with Raised e => Nat.eqb e st | _ => false end)
   end.
+
+Record partial_case := {
+  pc_wl : list concept;
+  pc_table : table;            (* the aligner calls that were made, with their results *)
+  pc_pre : list call;          (* earlier calls on the same object, in order *)
+  pc_main : call;              (* the last call *)
+  pc_order : list nat;
+  pc_strict : list nat;        (* implementation: add_cognate_ids(..., 'strict') from the last call's column *)
+  pc_loose : list (list nat)   (* implementation: add_cognate_ids(..., 'loose') from the last call's column *)
+}.
+
+Definition partial_case_code (c : partial_case) : nat :=
+  let main := pc_main c in
+  fold_right Nat.lor
+    (call_code (pc_wl c) (pc_table c) main
+     + match k_status main with
+       | 0 => derive_code (k_out main) (pc_order c) (pc_strict c) (pc_loose c)
+       | _ => 0
+       end)
+    (map (call_code (pc_wl c) (pc_table c)) (pc_pre c)).
